@@ -75,6 +75,9 @@ func (d *Driver) expectedFor(c *ClientState, i int) Expected {
 		}
 		return Expected{Known: true, AnyError: true, Why: "not served (unspecified case): an error reply is due"}
 	case "single":
+		if d.P.Proxy.TimeoutMs > 0 && len(rq.Keys) > 0 && d.ownerHung(rq.Keys[0]) {
+			return Expected{Known: true, AnyError: true, Why: "the owning node hangs: a timeout (or another proxy error) is due, in position"}
+		}
 		var fin, last *CmdRec
 		for _, r := range d.recsFor(rq.Tok) {
 			if r.Kind == "data" && r.Name == rq.Cmd {
@@ -107,7 +110,25 @@ func (d *Driver) expectedFor(c *ClientState, i int) Expected {
 	return Expected{}
 }
 
+// ownerHung: the node owning the key's slot in the initial topology has been stopped (profiles that hang a node do so before
+// any client request is sent and route everything to masters).
+func (d *Driver) ownerHung(key string) bool {
+	o := d.P.Topos[0].Owner(RefSlot([]byte(key)))
+	if o == nil {
+		return false
+	}
+	n := d.C.Nodes[o.Addr]
+	return n != nil && n.Hung
+}
+
 func (d *Driver) expectedSplit(rq *ReqPlan, msgMax int, sentAt time.Duration) Expected {
+	if d.P.Proxy.TimeoutMs > 0 {
+		for _, k := range rq.Keys {
+			if d.ownerHung(k) {
+				return Expected{Known: true, AnyError: true, Why: "a fragment's node hangs: an error is due for the whole request, in position"}
+			}
+		}
+	}
 	recs := d.recsFor(rq.Tok)
 	var data []*CmdRec
 	held, late := false, false
